@@ -1,4 +1,5 @@
 import PvModel.Lemmas.ArgsortLemmas
+import PvModel.Lemmas.RankLemmas
 /-!
 # C13 — variable types obey their domain laws
 
@@ -139,6 +140,20 @@ theorem perm_correct_mem (n : Nat) (xs : List Num) (hlen : xs.length = n) :
   simp only [List.length_map, argsort_length, hlen] at h
   exact h.map Int.ofNat
 
+/-- a permutation of the item indices is left unchanged (`argsort ∘ argsort` is the identity on permutations). -/
+theorem perm_correct_fix (n : Nat) (l : List Int) (h : (Var.perm n).mem (.ints l) = true) :
+    (Var.perm n).correct (Coord.toRaw (.ints l)) = .ok (.ints l) :=
+  _root_.perm_correct_fix n l h
+
+/-- idempotence: correcting a corrected permutation changes nothing. -/
+theorem perm_correct_idem (n : Nat) (xs : List Num) (hlen : xs.length = n) :
+    ∃ y, (Var.perm n).correct (.vec xs) = .ok y ∧ (Var.perm n).correct y.toRaw = .ok y := by
+  refine ⟨_, rfl, ?_⟩
+  apply perm_correct_fix
+  obtain ⟨y, h1, h2⟩ := perm_correct_mem n xs hlen
+  cases h1
+  exact h2
+
 /-! ## validators -/
 
 /-- inverted or equal bounds are rejected. -/
@@ -179,3 +194,4 @@ example : (Var.perm 3).correct (Coord.toRaw (.ints [2, 0, 1])) = .ok (.ints [2, 
 example : (Var.perm 3).mem (.ints [2, 0, 1]) = true := by decide +kernel
 
 end C13
+
